@@ -323,6 +323,9 @@ def lexer_validate(chk, binary, sc, docs, what, verdict=False):
     automaton of spec/Lexer.tla - the comment pre-pass followed by the rules of OpenFGALexer.g4 - holds at that step; where the automaton
     finds a character no rule accepts, the run reported a token recognition error. ASCII documents only (TLC's strings, DESIGN II.3)."""
     docs = [d for d in docs if all(0 < ord(c) < 128 for c in d["text"])]
+    if not docs:
+        log("lexer traces (%s): no document to record" % what)
+        return True
     inp, out = sc.path("lex.in.ndjson"), sc.path("lexer_docs.ndjson")
     write_ndjson(inp, [{"id": d["id"], "text": d["text"]} for d in docs])
     run_harness(binary, ["lexer-record", "-in", inp, "-out", out])
@@ -446,6 +449,9 @@ def doc_validate(chk, binary, sc, docs, tag, corrupt=None):
     PostStateOK after every event, NotStuck, PanicOK, Result{Types,Conds,Exts,Errs}OK (accumulated model, extension names, listener-raised errors with
     message and position) and, for valid documents (src), WalkOK (the callback sequence is the one spec/DslWalk.tla derives from the grammar).
     A rejected trace is DRIFT of the Impl layer (reported); the verdict of the properties comes from the Ideal comparison."""
+    if not docs:            # (an earlier stage withheld every document, e.g. after calls that did not return)
+        log("document traces (%s): no document to record" % tag)
+        return 0
     inp, tmp, out = sc.path("doc.in.ndjson"), sc.path("doc.tmp.ndjson"), sc.path("doc_traces.ndjson")
     write_ndjson(inp, [{"id": d["id"], "text": d["text"], "modular": False} for d in docs])
     run_harness(binary, ["doc-record", "-in", inp, "-out", tmp])
